@@ -62,20 +62,38 @@ Proof.
   cbn [digits_loop]. rewrite Hb. apply IH. exact Hd.
 Qed.
 
-Lemma py_int_digits b ds : forallb is_digit (b :: ds) = true -> py_int (b :: ds) = Some (dvalue (b :: ds) 0).
+Lemma py_int_nolimit_digits b ds : forallb is_digit (b :: ds) = true -> py_int_nolimit (b :: ds) = Some (dvalue (b :: ds) 0).
 Proof.
   intros H. pose proof H as H0. cbn [forallb] in H0. apply andb_prop in H0. destruct H0 as [Hb Hd].
   assert (Hc : b = 48 \/ b = 49 \/ b = 50 \/ b = 51 \/ b = 52 \/ b = 53 \/ b = 54 \/ b = 55 \/ b = 56 \/ b = 57)
     by (unfold is_digit in Hb; lia).
-  unfold py_int.
+  unfold py_int_nolimit.
   destruct Hc as [->|[->|[->|[->|[->|[->|[->|[->|[->| ->]]]]]]]]];
     cbn [lstrip is_ws Z.eqb Z.leb Z.compare Pos.compare Pos.compare_cont andb orb Pos.eqb is_digit];
     (rewrite digits_loop_digits by exact H; reflexivity).
 Qed.
 
+(* the digit limit of int() (4300) cannot bind on a text of at most 4300 bytes *)
+Lemma count_digits_le l : count_digits l <= len l.
+Proof.
+  unfold count_digits, len. induction l as [|b l IH]; cbn [filter length]; [lia|].
+  destruct (is_digit b); cbn [length]; lia.
+Qed.
+
+Lemma py_int_short l : len l <= INT_MAX_STR_DIGITS -> py_int l = py_int_nolimit l.
+Proof.
+  intros H. unfold py_int. destruct (py_int_nolimit l) as [v|]; [|reflexivity].
+  pose proof (count_digits_le l) as C.
+  destruct (INT_MAX_STR_DIGITS <? count_digits l) eqn:E; [lia|reflexivity].
+Qed.
+
+Lemma py_int_digits b ds : len (b :: ds) <= INT_MAX_STR_DIGITS ->
+  forallb is_digit (b :: ds) = true -> py_int (b :: ds) = Some (dvalue (b :: ds) 0).
+Proof. intros L H. rewrite py_int_short by exact L. apply py_int_nolimit_digits. exact H. Qed.
+
 Lemma py_int_d6 v : 0 <= v < 1000000 -> py_int (d6 v) = Some v.
 Proof.
-  intros H. unfold d6, d3. cbn [app]. rewrite py_int_digits.
+  intros H. unfold d6, d3. cbn [app]. rewrite py_int_digits; [|unfold len, INT_MAX_STR_DIGITS; cbn [length]; lia|].
   - f_equal. unfold dvalue. cbn [fold_left]. rewrite !digit_val.
     replace (v / 100) with (v / 10 / 10) by (rewrite Z.div_div by lia; reflexivity).
     replace (v / 1000) with (v / 10 / 10 / 10) by (rewrite !Z.div_div by lia; reflexivity).
